@@ -198,6 +198,37 @@ def run(ctx: core.Ctx):
                 g = [(r[0], r[1]) for r in got[1]]
             if g != want and witness is None:
                 witness = dict(kind="catalog", mapping=repr(m), current_database=cur, sql=sql, returned=repr(g)[:400], expected=repr(want)[:400])
+        # the same process serves several declarations one after the other - also declarations that are equal as unordered
+        # mappings but list a table's columns in another order: every answer follows the declaration it was asked about
+        def reorder(x, depth):
+            if depth == 1:
+                return dict(reversed(list(x.items())))
+            return {k: reorder(v, depth - 1) for k, v in x.items()}
+
+        def tables_of(x, depth, path=()):
+            if depth == 2:
+                for t, cs in x.items():
+                    yield path + (t,), cs
+            else:
+                for k, v in x.items():
+                    yield from tables_of(v, depth - 1, path + (k,))
+
+        for depth, m in cases[:8]:
+            for mm in (m, reorder(m, depth), m):
+                CatSession.MAPPING = mm
+                sess = CatSession()
+                for path, cs in tables_of(mm, depth):
+                    db = path[-2] if len(path) >= 2 else None
+                    if depth == 4 and sum(1 for p2, _ in tables_of(mm, depth) if p2[-2:] == path[-2:]) > 1:
+                        continue   # the same db.table in two catalogs: SHOW COLUMNS lists both
+                    sql = f"SHOW COLUMNS FROM `{path[-1]}`" + (f" FROM `{db}`" if db else "")
+                    got = ask(loop, sess, sql)
+                    ctx.evals += 1
+                    want = [(n, ty) for n, ty in cs.items()]
+                    if (got[0] != "Ok" or [(r[0], r[1]) for r in got[1]] != want) and witness is None:
+                        witness = dict(kind="declaration-order", mapping=repr(mm), sql=sql, declared=repr(want),
+                                       returned=repr(got[1] if got[0] == "Ok" else got)[:300],
+                                       note="asked after an equal mapping with another column order had been served")
         # INFORMATION_SCHEMA tables directly: each declared column exactly once
         for depth, m in cases[:6]:
             CatSession.MAPPING = m
